@@ -16,7 +16,7 @@ NOTES = {
  "C06-3": "JSON key dispatch in Transaction::deserialize: the harness c06_kind_dispatch would see it, but Kani 0.68 cannot compile that function (ICE on the niche-encoded Result<Eip1559Transaction, _>)",
  "C03-3": "needs a path of 257+ components; depth is bounded by 2",
  "C17-2": "non-termination shows up as a failed unwinding assertion, which this framework reports as inconclusive (exit 2), not as a violation; the query that would reach it (encodeType over cyclic graphs) is a thorough-tier attempt",
- "C13-2": "byte-field strings: decided since the error-message rendering is cut (c13n_bytes_2 / c13n_bytes_4)",
+ "C13-2": "byte-field strings are decided since the error-message rendering is cut (c13n_bytes_*), but this rewrite (trim_start_matches with a str pattern) makes those queries run past their time limit: inconclusive",
  "C13-3": "storage-key strings: as C13-2 (c13_slot_31 did not finish in 30 min)",
  "C13-1": "negative *float* spellings: symbolic f64 values through ethnum's range/fraction checks did not finish (floating-point conversions); integers and the sign guard on integer-typed numbers are decided",
  "C09-2": "same change as C13-1",
